@@ -118,8 +118,13 @@ pub fn gen_text(r: &mut Rng, scale: u32) -> String {
             text.push('\u{feff}');
         }
         let n = if style >= 65 { r.range(13, 40 * scale as u64) } else { r.below(13) };
+        let lookalikes = r.chance(1, 6);
         for _ in 0..n {
-            text.push_str(PIECES[r.weighted(&w)]);
+            if lookalikes && r.chance(1, 3) {
+                text.push_str(*r.pick::<&str>(crate::c15::LOOKALIKES));
+            } else {
+                text.push_str(PIECES[r.weighted(&w)]);
+            }
         }
     } else {
         if r.chance(15, 100) {
